@@ -2,6 +2,8 @@ import Sekai.Model.Stake
 import SekaiProofs.Lemmas.Dec
 import Sekai.Gen.App
 import Sekai.Model.App
+import Sekai.Gen.Keys
+import SekaiProofs.Lemmas.Keys
 /-! # C15 — Validator status follows allowed transitions; offences and downtime are punished
 
 `transitions`: which status edge each operation can take, for every state. `only_target_changes`: no other
@@ -353,5 +355,15 @@ theorem rank_reset_reactivates_counterexample :
 theorem staking_hooks_wired :
     Sekai.Gen.App.hooks.contains ("customStakingKeeper", "stakingtypes.NewMultiStakingHooks(app.CustomSlashingKeeper.Hooks())") = true := by
   decide +kernel
+
+/-! ### Key spaces of the stores this model keeps in separate maps (table `Gen.Keys`)
+
+The model keeps each record kind of a module in a field of its own; the module keeps them in ONE store under byte prefixes.
+No prefix extends another (checked on the regenerated table), so by `Sekai.Keys.keys_of_different_kinds_differ` a key of one
+kind is never a key of another kind. -/
+
+theorem staking_key_spaces_disjoint : Sekai.Keys.disjoint Sekai.Gen.Keys.stores "staking" = true := by decide +kernel
+
+theorem slashing_key_spaces_disjoint : Sekai.Keys.disjoint Sekai.Gen.Keys.stores "slashing" = true := by decide +kernel
 
 end Sekai.Props.C15
